@@ -239,4 +239,220 @@ theorem onStart_idle {s : HtmlSt} (h : Idle P s) (htgt : P.getLast? = some tgt) 
 
 end
 
+/-! ### the invariant of the token loop -/
+
+/-- after the tokens `T`: either idle with `T` rendered into `out`, or inside a target element that began at `t1` -/
+def FInv (P : List Bytes) (tgt c : Bytes) (T : List Tok) (so : HtmlSt × Bytes) : Prop :=
+  so.1.visitor.content = c ∧
+  ((Idle P so.1 ∧ RScript tgt c T so.2) ∨
+   (∃ T0 t1 mid, Buf P tgt so.1 (rawsOf (t1 :: mid)) ∧ T = T0 ++ t1 :: mid ∧ RScript tgt c T0 so.2 ∧
+      t1.kind = .startTag ∧ t1.name = tgt ∧ isVoid tgt = false ∧ ∀ t ∈ mid, ¬ Closer tgt t))
+
+section
+variable (tk : Tokenize) (ev : Bytes → Bytes → Bool) {P : List Bytes} {tgt c : Bytes}
+
+theorem finv_keep {s : HtmlSt} {T : List Tok} {out : Bytes} (t : Tok) (hc : s.visitor.content = c) (h : Idle P s)
+    (hr : RScript tgt c T out) : FInv P tgt c (T ++ [t]) (s, out ++ t.raw) :=
+  ⟨hc, Or.inl ⟨h, .keep t hr⟩⟩
+
+/-- the target element that began at `t1` is closed by `t` -/
+theorem finv_close {s : HtmlSt} {T0 mid : List Tok} {t1 : Tok} {out : Bytes} (t : Tok)
+    (hc : s.visitor.content = c) (hB : Buf P tgt s (rawsOf (t1 :: mid))) (hr : RScript tgt c T0 out)
+    (h1 : t1.kind = .startTag) (h2 : t1.name = tgt) (h3 : isVoid tgt = false) (h4 : ∀ t ∈ mid, ¬ Closer tgt t)
+    (hcl : Closer tgt t) :
+    FInv P tgt c ((T0 ++ t1 :: mid) ++ [t])
+      (push (onEnd tk ev s tgt t.raw).1 out (onEnd tk ev s tgt t.raw).2) := by
+  obtain ⟨i1, i2, i3⟩ := onEnd_buf_close tk ev hB t.raw
+  rw [push_idle i1]
+  have hT : (T0 ++ t1 :: mid) ++ [t] = T0 ++ (t1 :: mid ++ [t]) := by simp
+  refine ⟨i3.trans hc, Or.inl ⟨i1, ?_⟩⟩
+  rw [hT]
+  rcases i2 with i2 | i2
+  · rw [i2, hc]
+    exact .rep _ (Or.inr ⟨t1, mid, t, rfl, h1, h2, h3, h4, hcl⟩) hr
+  · rw [i2]
+    have := hr.keeps (t1 :: mid ++ [t])
+    have e : rawsOf (t1 :: mid ++ [t]) = rawsOf (t1 :: mid) ++ t.raw := by
+      have : t1 :: mid ++ [t] = (t1 :: mid) ++ [t] := rfl
+      rw [this, rawsOf_append]; simp [rawsOf]
+    rw [e] at this
+    exact this
+
+/-- one more token inside the target element -/
+theorem finv_more {s : HtmlSt} {T0 mid : List Tok} {t1 : Tok} {out : Bytes} (t : Tok)
+    (hc : s.visitor.content = c) (hB : Buf P tgt s (rawsOf (t1 :: mid))) (hr : RScript tgt c T0 out)
+    (h1 : t1.kind = .startTag) (h2 : t1.name = tgt) (h3 : isVoid tgt = false) (h4 : ∀ t ∈ mid, ¬ Closer tgt t)
+    (hncl : ¬ Closer tgt t) :
+    FInv P tgt c ((T0 ++ t1 :: mid) ++ [t]) (push s out t.raw) := by
+  obtain ⟨p1, p2⟩ := push_buf hB out t.raw
+  refine ⟨?_, Or.inr ⟨T0, t1, mid ++ [t], ?_, by simp, ?_, h1, h2, h3, ?_⟩⟩
+  · have : (push s out t.raw).1.visitor = s.visitor := by
+      unfold push; rw [hB.stack]
+    rw [this]; exact hc
+  · have e : rawsOf (t1 :: (mid ++ [t])) = rawsOf (t1 :: mid) ++ t.raw := by
+      have : t1 :: (mid ++ [t]) = (t1 :: mid) ++ [t] := rfl
+      rw [this, rawsOf_append]; simp [rawsOf]
+    rw [e]; exact p2
+  · rw [p1]; exact hr
+  · intro t' ht'
+    simp only [List.mem_append, List.mem_singleton] at ht'
+    rcases ht' with ht' | rfl
+    · exact h4 t' ht'
+    · exact hncl
+
+/-- **one step of the token loop keeps the invariant** -/
+theorem stepTok_finv (htgt : P.getLast? = some tgt) (T : List Tok) (so : HtmlSt × Bytes) (t : Tok)
+    (h : FInv P tgt c T so) : FInv P tgt c (T ++ [t]) (stepTok tk ev so t) := by
+  obtain ⟨s, out⟩ := so
+  obtain ⟨hc, h⟩ := h
+  simp only at hc h
+  rcases h with ⟨hI, hr⟩ | ⟨T0, t1, mid, hB, rfl, hr, h1, h2, h3, h4⟩
+  · -- idle
+    cases hk : t.kind with
+    | startTag =>
+      rw [stepTok_start tk ev s out t hk]
+      obtain ⟨e1, e2, e3⟩ := onStart_idle hI htgt t.name t.raw
+      generalize onStart s t.name t.raw = p at e1 e2 e3
+      obtain ⟨s1, d1⟩ := p
+      simp only at e1 e2 e3
+      subst e1
+      rcases e3 with hI1 | ⟨hn, hB1⟩
+      · by_cases hv : isVoid t.name = true
+        · rw [if_pos hv]
+          obtain ⟨f1, f2, f3⟩ := onEnd_idle tk ev hI1 t.name t.raw
+          rw [f1, push_idle f2]
+          exact finv_keep t (f3.trans (e2.trans hc)) f2 hr
+        · rw [if_neg hv, push_idle hI1]
+          exact finv_keep t (e2.trans hc) hI1 hr
+      · by_cases hv : isVoid t.name = true
+        · rw [if_pos hv, hn]
+          obtain ⟨i1, i2, i3⟩ := onEnd_buf_close tk ev hB1 t.raw
+          rw [push_idle i1]
+          refine ⟨i3.trans (e2.trans hc), Or.inl ⟨i1, ?_⟩⟩
+          rcases i2 with i2 | i2
+          · rw [i2, e2, hc]
+            exact .rep [t] (Or.inl ⟨t, rfl, hn, Or.inr ⟨hk, by rw [← hn]; exact hv⟩⟩) hr
+          · rw [i2]
+            simpa using RScript.keep t hr
+        · rw [if_neg hv]
+          obtain ⟨p1, p2⟩ := push_buf hB1 out t.raw
+          refine ⟨?_, Or.inr ⟨T, t, [], ?_, by simp, ?_, hk, hn, ?_, by simp⟩⟩
+          · have : (push s1 out t.raw).1.visitor = s1.visitor := by
+              unfold push; rw [hB1.stack]
+            rw [this]; exact e2.trans hc
+          · have e : rawsOf [t] = [] ++ t.raw := by simp [rawsOf]
+            rw [e]; exact p2
+          · rw [p1]; exact hr
+          · rw [← hn]; simpa using hv
+    | endTag =>
+      rw [stepTok_end tk ev s out t hk]
+      obtain ⟨f1, f2, f3⟩ := onEnd_idle tk ev hI t.name t.raw
+      rw [f1, push_idle f2]
+      exact finv_keep t (f3.trans hc) f2 hr
+    | selfClosing =>
+      rw [stepTok_self tk ev s out t hk]
+      obtain ⟨e1, e2, e3⟩ := onStart_idle hI htgt t.name t.raw
+      generalize onStart s t.name t.raw = p at e1 e2 e3
+      obtain ⟨s1, d1⟩ := p
+      simp only at e1 e2 e3
+      subst e1
+      rcases e3 with hI1 | ⟨hn, hB1⟩
+      · obtain ⟨f1, f2, f3⟩ := onEnd_idle tk ev hI1 t.name t.raw
+        rw [f1, push_idle f2]
+        exact finv_keep t (f3.trans (e2.trans hc)) f2 hr
+      · rw [hn]
+        obtain ⟨i1, i2, i3⟩ := onEnd_buf_close tk ev hB1 t.raw
+        rw [push_idle i1]
+        refine ⟨i3.trans (e2.trans hc), Or.inl ⟨i1, ?_⟩⟩
+        rcases i2 with i2 | i2
+        · rw [i2, e2, hc]
+          exact .rep [t] (Or.inl ⟨t, rfl, hn, Or.inl hk⟩) hr
+        · rw [i2]
+          simpa using RScript.keep t hr
+    | text =>
+      rw [stepTok_other tk ev s out t (by simp [hk, isTagKind]), push_idle hI]
+      exact finv_keep t hc hI hr
+    | other =>
+      rw [stepTok_other tk ev s out t (by simp [hk, isTagKind]), push_idle hI]
+      exact finv_keep t hc hI hr
+  · -- inside the target element
+    cases hk : t.kind with
+    | startTag =>
+      rw [stepTok_start tk ev s out t hk, onStart_buf hB]
+      simp only
+      by_cases hv : isVoid t.name = true
+      · rw [if_pos hv]
+        have hn : t.name ≠ tgt := by
+          intro e; rw [e, h3] at hv; cases hv
+        rw [onEnd_buf_other tk ev hB t.name t.raw hn]
+        exact finv_more t hc hB hr h1 h2 h3 h4 (fun hcl => hn hcl.1)
+      · rw [if_neg hv]
+        refine finv_more t hc hB hr h1 h2 h3 h4 ?_
+        intro hcl
+        rcases hcl.2 with e | e | e
+        · rw [hk] at e; cases e
+        · rw [hk] at e; cases e
+        · exact hv e.2
+    | endTag =>
+      rw [stepTok_end tk ev s out t hk]
+      by_cases hn : t.name = tgt
+      · rw [hn]
+        exact finv_close tk ev t hc hB hr h1 h2 h3 h4 ⟨hn, Or.inl hk⟩
+      · rw [onEnd_buf_other tk ev hB t.name t.raw hn]
+        exact finv_more t hc hB hr h1 h2 h3 h4 (fun hcl => hn hcl.1)
+    | selfClosing =>
+      rw [stepTok_self tk ev s out t hk, onStart_buf hB]
+      simp only
+      by_cases hn : t.name = tgt
+      · rw [hn]
+        exact finv_close tk ev t hc hB hr h1 h2 h3 h4 ⟨hn, Or.inr (Or.inl hk)⟩
+      · rw [onEnd_buf_other tk ev hB t.name t.raw hn]
+        exact finv_more t hc hB hr h1 h2 h3 h4 (fun hcl => hn hcl.1)
+    | text =>
+      rw [stepTok_other tk ev s out t (by simp [hk, isTagKind])]
+      refine finv_more t hc hB hr h1 h2 h3 h4 ?_
+      intro hcl
+      rcases hcl.2 with e | e | e <;> (try (rw [hk] at e; cases e))
+      rw [hk] at e; cases e.1
+    | other =>
+      rw [stepTok_other tk ev s out t (by simp [hk, isTagKind])]
+      refine finv_more t hc hB hr h1 h2 h3 h4 ?_
+      intro hcl
+      rcases hcl.2 with e | e | e <;> (try (rw [hk] at e; cases e))
+      rw [hk] at e; cases e.1
+
+theorem fold_finv (htgt : P.getLast? = some tgt) : ∀ (ts T : List Tok) (so : HtmlSt × Bytes),
+    FInv P tgt c T so → FInv P tgt c (T ++ ts) (ts.foldl (stepTok tk ev) so)
+  | [], T, so, h => by simpa using h
+  | t :: ts, T, so, h => by
+    have := fold_finv htgt ts (T ++ [t]) _ (stepTok_finv tk ev htgt T so t h)
+    simpa [List.append_assoc] using this
+
+/-- the invariant gives the rendering of the ledger: what is still buffered is kept -/
+theorem finv_ledger {T : List Tok} {so : HtmlSt × Bytes} (h : FInv P tgt c T so) :
+    RScript tgt c T (ledger so.1 so.2) := by
+  obtain ⟨_, h⟩ := h
+  rcases h with ⟨hI, hr⟩ | ⟨T0, t1, mid, hB, rfl, hr, _⟩
+  · simpa [ledger, hI.stack] using hr
+  · have := hr.keeps (t1 :: mid)
+    simpa [ledger, hB.stack, flat] using this
+
+/-- **The token loop of a fresh replace stage renders any token list by replacing non-overlapping element spans of the
+target (the last element of the path) and keeping every other token in place.** -/
+theorem fold_replace_strong (v : Visitor) (hk : v.kind = .replace) (hb : v.before = []) (hnb : v.isBuffering = false)
+    (htgt : (pathOf v).getLast? = some tgt) (T : List Tok) :
+    RScript tgt v.content T
+      (ledger (T.foldl (stepTok tk ev) (HtmlSt.new v, [])).1 (T.foldl (stepTok tk ev) (HtmlSt.new v, [])).2) := by
+  have h0 : FInv (pathOf v) tgt v.content [] (HtmlSt.new v, []) := by
+    refine ⟨rfl, Or.inl ⟨⟨hk, rfl, hnb, rfl, ?_⟩, .nil⟩⟩
+    intro x hx
+    left
+    simp only [HtmlSt.new, Visitor.first, hb, List.reverse_nil] at hx
+    injection hx with hx
+    exact hx.symm
+  have := fold_finv tk ev htgt T [] _ h0
+  simpa using finv_ledger this
+
+end
+
 end Rio.Filter
